@@ -107,7 +107,7 @@ class C07(EngineACheck):
         "non-trivial = two jobs in flight at once in some variant"
     )
     EXPECTED_PROBES = ["handle_programs", "jobs_waited_for_limits", "variants_compared"]
-    QUICK_SECONDS = 40.0
+    QUICK_SECONDS = 50.0
 
     def run_one(self, ch: Choices) -> RunOutcome:
         out = RunOutcome()
